@@ -143,12 +143,12 @@ def bases(ctx, rng):
                 out.append(("jws.ver_io", {"jws": det, "jwk": keys, "all": False, "feeds": [tok["payload"].encode().hex()[:20], tok["payload"].encode().hex()[20:]]}))
         elif o == "jwe.enc":
             tok = r["jwe"]
-            out.append(("jwe.dec", {"jwe": tok, "jwk": a["jwk"], "rand": "00" * 600}))
-            out.append(("jwe.dec_jwk", {"jwe": tok, "jwk": a["jwk"], "rand": "00" * 600}))
+            out.append(("jwe.dec", {"jwe": tok, "jwk": a["jwk"], "rand": "00" * 4096}))
+            out.append(("jwe.dec_jwk", {"jwe": tok, "jwk": a["jwk"], "rand": "00" * 4096}))
             rc = tok.get("recipients")
             out.append(("jwe.hdr", {"jwe": tok, "rcp": rc[0] if isinstance(rc, list) and rc else tok}))
             if isinstance(rc, list) and rc:
-                out.append(("jwe.dec_jwk", {"jwe": tok, "rcp": rc[-1], "jwk": a["jwk"], "rand": "00" * 600}))
+                out.append(("jwe.dec_jwk", {"jwe": tok, "rcp": rc[-1], "jwk": a["jwk"], "rand": "00" * 4096}))
         elif o == "jwe.enc_cek":
             out.append(("jwe.dec_cek", {"jwe": r["jwe"], "cek": a["cek"]}))
         elif o == "jwe.enc_cek_io":
